@@ -37,7 +37,7 @@ NULL_L = -20 * LU
 NAMES = {(3, 0): ["chr1", "chr2", "chr10", "chrX", "chrY"], (3, 1): ["1", "2", "10", "X", "Y"],
          (0, 0): ["chrX", "chrY", "chrM"], (0, 1): ["X", "Y", "M"]}
 ANTI = ("Antitarget", "Background")
-NOVAR = {"kind": "none", "k": 0, "fnum": 1, "fden": 1, "tperm": [], "aperm": [], "rperm": []}
+NOVAR = {"kind": "none", "k": 0, "k16": 0, "fnum": 1, "fden": 1, "tperm": [], "aperm": [], "rperm": []}
 
 
 # ------------------------------------------------------------------------------------------------ real code
@@ -294,11 +294,13 @@ def gen_case(rng: random.Random, family, var_kind, big):
     # the sample: the same bins or a subset
     psub = rng.choice([0.0, 0.0, 0.1, 0.5])
     pnull_t = rng.choice([0.0, 0.0, 0.05, 0.3])
-    pnull_a = 0.0 if var_kind in ("scale2k", "scalef") else rng.choice([0.0, 0.0, 0.05, 0.3])
+    # (no zero-depth antitarget bins under a non-dyadic factor: whether the placeholder -20, centred, falls above the
+    #  -15 cut would then hinge on an irrational shift the specification only has rounded to the grid)
+    pnull_a = 0.0 if var_kind == "scalef" else rng.choice([0.0, 0.0, 0.05, 0.3])
     if family == "sem" and not ties:
         pnull_t, pnull_a = rng.choice([(0.7, 0.0), (1.0, 0.0), (0.0, 1.0), (0.0, 0.7), (0.6, 0.6)])
-        if var_kind in ("scale2k", "scalef"):
-            pnull_a = rng.choice([0.0, 1.0])
+        if var_kind == "scalef":
+            pnull_a = 0.0
     off = {"T": STEP * rng.randint(-16, 16), "A": STEP * rng.randint(-16, 16)}
     tgt, ant = [], []
     for (c, s, e, cls) in bins:
@@ -342,8 +344,10 @@ def gen_case(rng: random.Random, family, var_kind, big):
     var = dict(NOVAR, kind=var_kind)
     if var_kind == "scale2k":
         var["k"] = rng.choice([-2, -1, 1, 2])
+        var["k16"] = 16 * var["k"]
     elif var_kind == "scalef":
         var["fnum"], var["fden"] = rng.choice([(3, 7), (137, 100), (10, 3), (999, 1000), (5, 2), (1, 3)])
+        var["k16"] = int(round(16 * math.log2(var["fnum"] / var["fden"])))     # the factor's log2 on the 1/16 grid
     elif var_kind == "perm":
         var["tperm"] = rng.sample(range(1, len(tgt) + 1), len(tgt))
         var["aperm"] = rng.sample(range(1, len(ant) + 1), len(ant))
@@ -407,11 +411,15 @@ def _bumps(ctx: Ctx, rec):
         ctx.bump("duplicated_coordinates_in_sample")
     if len(set(rkeys)) < len(rkeys):
         ctx.bump("duplicated_coordinates_in_reference")
-    if [k for k in rkeys if k in sset] != sorted(skeys) and len(sset) > 1:
-        ctx.bump("reference_and_sample_rows_in_different_orders")
-    if sorted(skeys) != [tuple(r[:3]) for r in sorted(rec["tgt"]) + sorted(rec["ant"])] or \
-            rec["tgt"] != sorted(rec["tgt"]) or rec["ant"] != sorted(rec["ant"]):
+    for tab in (rec["tgt"], rec["ant"]):
+        ks = [tuple(r[:3]) for r in tab]
+        if len(ks) > 1 and [k for k in rkeys if k in set(ks)] != ks:
+            ctx.bump("reference_and_sample_rows_in_different_orders")
+            break
+    if rec["tgt"] != sorted(rec["tgt"]) or rec["ant"] != sorted(rec["ant"]):
         ctx.bump("sample_rows_not_in_genomic_order")
+    if rkeys[:len(rec["tgt"])] != [tuple(r[:3]) for r in rec["tgt"]]:
+        ctx.bump("reference_rows_not_positionally_aligned_with_target")
     if not rec["ant"]:
         ctx.bump("empty_antitarget")
     if not (rec["gc"] or rec["edge"] or rec["rmask"]):
@@ -439,9 +447,11 @@ def run(ctx: Ctx):
                 "bad bins and threshold values anywhere, subset samples, null-coverage bins, refusal scenarios), each "
                 "run twice (depth x2^k / x arbitrary / rows permuted). A case is distinct by its whole encoded "
                 "input; non-trivial when the target table has >= 2 bins.")
-    if dev:
+    if dev == 1:
         scopes = [dict(NB=3, KShifts=[0, 4], Pats=[1, 2], Scens=["same", "missing", "dupT", "dupRef", "permR", "perm"],
                        ColSets=["full"])]
+    elif dev >= 2:
+        scopes = [dict(NB=2, KShifts=[0], Pats=[2], Scens=["same", "permR"], ColSets=["full"])]
     elif thorough:
         scopes = [dict(NB=5, KShifts=[0, 1, 2, 3, 4, 5], Pats=[1, 2, 3],
                        Scens=["same", "subset", "noanti", "missing", "missingA", "dupT", "dupA", "dupRef", "permR",
@@ -469,7 +479,7 @@ def run(ctx: Ctx):
     ctx.exhaustive = "; ".join(
         f"NB={sc['NB']} bins x all bad subsets x all correction subsets x KShifts={sc['KShifts']} x Pats={sc['Pats']} x "
         f"Scens={sc['Scens']} x ColSets={sc['ColSets']}" for sc in scopes) + " -- every dumped input replayed"
-    n_rand, n_big = (40, 4) if dev else ((4000, 400) if thorough else (240, 16))
+    n_rand, n_big = (40, 4) if dev == 1 else (dev, dev // 10) if dev else ((4000, 400) if thorough else (240, 16))
     rnd = ctx.execute(execute, random_inputs(ctx, n_rand, n_big), chunksize=2)
     records += rnd
     for rec in records:
